@@ -427,6 +427,7 @@ pub fn check(rep: &Reporter) {
 		"SCHED: client histories (1–3 front-end operations out of call / batch / subscribe / subscribe-then-drop / subscribe_to_method / notification / late call) × one transport fault of each kind {n-th send fails, receive error after k messages, peer close, non-JSON message, response with unknown id, (thorough) empty array, array with non-numeric id, empty object} injected at every step, explored over all release orders of {front-end callers, tx.send, tx.close, message deliveries, the client's send task / read task / shutdown watcher (cfg points)} up to the stated deviation bound; plus ENUM: ~150 hostile server messages (ids at u64 boundaries, 10⁴-element array, nesting depth 200, token soup, whitespace-only frames, 2–6 kB messages of 2-, 3- and 4-byte characters at every alignment) each with 0 and 1 pending call, followed by a sentinel call. States = decision-tree nodes, transitions = point releases; every execution is an implementation execution.",
 	);
 	rep.assume("request_timeout is 1 h and time is virtual, so 'prompt' = before quiescence; the harness transport reports peer close as a receive error like the WebSocket transport does");
+	request_timeout_leg(rep);
 	let bound = if thorough { 3 } else { 2 };
 	let scen = scenarios(thorough);
 	let t0 = std::time::Instant::now();
@@ -451,8 +452,13 @@ pub fn check(rep: &Reporter) {
 		}
 	}
 	rep.extra("deviation_bound", json!(bound));
-	// one real-time leg: an unanswered call, batch and subscribe fail with RequestTimeout (no scheduler involved)
-	{
+
+}
+
+/// One real-time leg: an unanswered call, batch and subscribe fail with RequestTimeout (no scheduler involved). It runs
+/// before the explorations: the client's timer is `futures_timer`'s, whose single helper thread is busy for a while
+/// after millions of short-lived clients (DESIGN §8, memory), and a 50 ms timer may then fire seconds late.
+fn request_timeout_leg(rep: &Reporter) {
 		use jsonrpsee_core::client::{ClientT, SubscriptionClientT};
 		let rt = tokio::runtime::Builder::new_current_thread().enable_all().build().unwrap();
 		let res = rt.block_on(async {
@@ -470,21 +476,20 @@ pub fn check(rep: &Reporter) {
 				.request_timeout(Duration::from_millis(50))
 				.build_with_tokio(clim::MockTx(shared.clone()), clim::MockRx(shared.clone()));
 			let t0 = std::time::Instant::now();
-			let a = tokio::time::timeout(Duration::from_secs(5), client.request::<Value, _>("m", jsonrpsee_core::rpc_params![])).await;
-			let b = tokio::time::timeout(Duration::from_secs(5), client.subscribe::<Value, _>("sub", jsonrpsee_core::rpc_params![], "unsub")).await;
+			let a = tokio::time::timeout(Duration::from_secs(30), client.request::<Value, _>("m", jsonrpsee_core::rpc_params![])).await;
+			let b = tokio::time::timeout(Duration::from_secs(30), client.subscribe::<Value, _>("sub", jsonrpsee_core::rpc_params![], "unsub")).await;
 			let mut bb = jsonrpsee_core::params::BatchRequestBuilder::new();
 			bb.insert("m", jsonrpsee_core::rpc_params![]).unwrap();
-			let c = tokio::time::timeout(Duration::from_secs(5), client.batch_request::<Value>(bb)).await;
+			let c = tokio::time::timeout(Duration::from_secs(30), client.batch_request::<Value>(bb)).await;
 			(format!("{a:?}"), format!("{:?}", b.map(|r| r.map(|_| "subscription"))), format!("{c:?}"), t0.elapsed())
 		});
 		for (what, r) in [("call", &res.0), ("subscribe", &res.1), ("batch", &res.2)] {
 			if !r.contains("RequestTimeout") {
-				rep.violation(&format!("request-timeout:{what}"), &format!("an unanswered {what} with request_timeout = 50 ms ended as {r} (waited up to 5 s)"), json!({"engine":"real-time","op": what, "observed": r}));
+				rep.violation(&format!("request-timeout:{what}"), &format!("an unanswered {what} with request_timeout = 50 ms ended as {r} (waited up to 30 s)"), json!({"engine":"real-time","op": what, "observed": r}));
 			}
 		}
 		rep.add_evals(3, 3, "request-timeout-leg");
 		rep.extra("request_timeout_leg", json!({"call": res.0, "subscribe": res.1, "batch": res.2, "elapsed_ms": res.3.as_millis() as u64}));
-	}
 }
 
 pub fn dyn_scenarios() -> Vec<Box<dyn sched::DynScenario>> {
